@@ -278,7 +278,12 @@ func mixCase(s string) string {
 // ---- generators
 
 var arpaLabelKinds = []string{"0", "7", "10", "255", "00", "256", "01", "000", "x", "a", "F", "f", "aa", "1a", "g", "-", "_", "İ", "K", "\xff", "in-addr", "ip6", "arpa", "com", "9", "1", "99", "100",
-	"srv100", "net172", "x255", "ab1", "a10", "host7", "1in-addr", "10in-addr", "aip6", "fip6", "0ip6"}
+	"srv100", "net172", "x255", "ab1", "a10", "host7", "1in-addr", "10in-addr", "aip6", "fip6", "0ip6",
+	// what a lenient number parser takes for an octet or a nibble: signs, leading zeros, radix
+	// prefixes, digit separators, exponents, blanks, non-ASCII digits
+	"+4", "-0", "+05", "+0", "-1", "0x1", "0X0a", "0b1", "0o7", "1_0", "1e1", " 1", "1 ", "٣", "１", "+a", "-f", "0xf", "0f",
+	// address literals of the other family (or of this one) where a number is expected
+	"::ffff:4", "::ffff:403:201", "0:0:0:0:0:ffff:4", "::4", "::1", "1234::cdef", "1%eth0", "::ffff:4%eth0", "[4]", "4:53"}
 
 func genArpaName(rng *rand.Rand) string {
 	root := pick(rng, "in-addr.arpa", "in-addr.arpa", "ip6.arpa", "ip6.arpa", "in-addr.arpa.", "ip6.arpa.", "IN-ADDR.ARPA", "Ip6.ArPa", "İn-addr.arpa", "ıp6.arpa", "in-addr.arp", "ip6arpa", "xin-addr.arpa", "xip6.arpa", "in-addr.arpa.com", "6.arpa", "addr.arpa",
@@ -396,6 +401,11 @@ func arpaCase(op, s string) string {
 	return op + " " + hx([]byte(s)) + " " + toASCIIField(trimOneDot(s))
 }
 
+// oddNumberLabels: what a lenient number or address parser accepts where an octet (or a nibble)
+// is expected: signs, radix prefixes, digit separators, literals of the other address family.
+var oddNumberLabels = []string{"+4", "-0", "+05", "+255", "-255", "0X0a", "0b1", "0o7", "1_0", "0xf", "0f", "+a", "-f",
+	"::ffff:4", "::ffff:403:201", "0:0:0:0:0:ffff:4", "::4", "::1", "1234::cdef", "4%eth0", "::ffff:4%eth0", "[4]", "4:53", "::ffff:0:4", "::"}
+
 func genC04(rng *rand.Rand, tier string) (cases []string) {
 	n := 12000
 	if tier == "thorough" {
@@ -416,6 +426,7 @@ func genC04(rng *rand.Rand, tier string) (cases []string) {
 	// digit alphabets, blanks, empty), and the neighbouring canonical values
 	odd := []string{"256", "257", "258", "259", "260", "299", "300", "511", "512", "999", "1000", "0256", "00", "000", "01", "001", "010",
 		"+1", "-1", "+0", "1e1", "0x1", "\xef\xbc\x91", "\xd9\xa1", " 1", "1 ", "", "255", "0", "25", "2555"}
+	odd = append(odd, oddNumberLabels...)
 	for pos := 0; pos < 4; pos++ {
 		for _, o := range odd {
 			ls := []string{fmt.Sprint(1 + rng.IntN(250)), fmt.Sprint(rng.IntN(256)), fmt.Sprint(rng.IntN(256)), fmt.Sprint(1 + rng.IntN(250))}
@@ -506,6 +517,31 @@ func genC05(rng *rand.Rand, tier string) (cases []string) {
 				}
 				cases = append(cases, arpaCase("C05.extract", s), arpaCase("C05.prefix", s))
 			}
+		}
+	}
+	// an odd spelling of a number (or an address literal) at every position of names of one to
+	// four octet labels and of one, two and thirty-two nibble labels
+	for _, o := range append([]string{"+1", "-1", "+0", "01", "00", "256", "1e1", "0x1", " 1", ""}, oddNumberLabels...) {
+		for nl := 1; nl <= 4; nl++ {
+			for pos := 0; pos < nl; pos++ {
+				ls := make([]string, nl)
+				for i := range ls {
+					ls[i] = fmt.Sprint(1 + rng.IntN(250))
+				}
+				ls[pos] = o
+				s := strings.Join(ls, ".") + pick(rng, ".in-addr.arpa", ".in-addr.arpa", ".IN-ADDR.ARPA.")
+				cases = append(cases, arpaCase("C05.prefix", s), arpaCase("C05.extract", s))
+			}
+		}
+		for _, nl := range []int{1, 2, 32} {
+			pos := rng.IntN(nl)
+			ls := make([]string, nl)
+			for i := range ls {
+				ls[i] = string("0123456789abcdef"[rng.IntN(16)])
+			}
+			ls[pos] = o
+			s := strings.Join(ls, ".") + ".ip6.arpa"
+			cases = append(cases, arpaCase("C05.prefix", s), arpaCase("C05.extract", s), arpaCase("C04.fromrev", s))
 		}
 	}
 	foreign = append(foreign, "1234", "host-101", "0192", "a100", "x199", "25500", "1255", "9.1234", "-200")
